@@ -71,21 +71,20 @@ import "github.com/plgd-dev/go-coap/v3/message"
 //@ func VerifDecodeEncoded(data []byte, m message.Message, out *message.Message) (n2 int, e2 error)
 //@   requires wfMsg(m) && isEnc(data, m)
 //@   requires out != nil && len(out.Options) == 0 && cap(out.Options) >= len(m.Options)
-//@   requires disjoint(m.Options, out.Options[0 : cap(out.Options)])
+//@   requires distinctObjects(m.Options, out.Options)
 //@   modifies out.Options, out.Options[0 : cap(out.Options)], out.Payload, out.Code, out.Token, out.Type, out.MessageID
 //@   ensures [decodes] e2 == nil && n2 == len(data)
 //@   ensures [fields] out.Code == m.Code && out.Type == m.Type && out.MessageID == m.MessageID
 //@   ensures [token] len(out.Token) == len(m.Token) && bytesEq(out.Token, m.Token)
 //@   ensures [payload] len(out.Payload) == len(m.Payload) && bytesEq(out.Payload, m.Payload)
 //@   ensures [opt-count] len(out.Options) == len(m.Options)
-//@   ensures [opt-ids] forall j int :: {out.Options[j].ID} 0 <= j && j < len(m.Options) ==> rawStart(udpOpts(data), j) == old(encLen(m.Options, j)) && rawStart(udpOpts(data), j + 1) == old(encLen(m.Options, j + 1)) && out.Options[j].ID == old(m.Options[j].ID)
-//@   ensures [opt-slices] forall j int :: {out.Options[j].ID} 0 <= j && j < len(m.Options) ==> rawStart(udpOpts(data), j) == old(encLen(m.Options, j)) && out.Options[j].Value == udpOpts(data)[old(encLen(m.Options, j) + 1 + hs(delta(m.Options, j)) + hs(len(m.Options[j].Value))) : old(encLen(m.Options, j) + optSize(m.Options, j))]
-//@   ensures [opt-values] forall j int :: {out.Options[j].ID} 0 <= j && j < len(m.Options) ==> rawStart(udpOpts(data), j) == old(encLen(m.Options, j)) && bytesEq(out.Options[j].Value, old(m.Options[j].Value))
+//@   ensures [opt-ids] forall j int :: {out.Options[j].ID} 0 <= j && j < len(m.Options) ==> out.Options[j].ID == old(m.Options[j].ID)
+//@   ensures [opt-values] forall j int :: {out.Options[j].ID} 0 <= j && j < len(m.Options) ==> out.Options[j].ID == old(m.Options[j].ID) && bytesEq(out.Options[j].Value, old(m.Options[j].Value))
 
 // VerifDecodeEncoded is a ghost function (see the contract above).
 func VerifDecodeEncoded(data []byte, m message.Message, out *message.Message) (n2 int, e2 error) {
-	message.VerifParseOfEncoding(data[4+len(m.Token):], m.Options, message.CoapOptionDefs)
 	n2, e2 = DefaultCoder.Decode(data, out)
+	message.VerifDecodedIsEncoded(data[4+len(m.Token):], m.Options, out.Options, message.CoapOptionDefs)
 	return
 }
 
@@ -95,7 +94,7 @@ func VerifDecodeEncoded(data []byte, m message.Message, out *message.Message) (n
 //@ func VerifRoundTrip(m message.Message, buf []byte, out *message.Message) (n int, e1 error, n2 int, e2 error)
 //@   requires wfMsg(m) && srcDisjoint(buf, m) && len(buf) >= udpSize(m)
 //@   requires out != nil && len(out.Options) == 0 && cap(out.Options) >= len(m.Options)
-//@   requires disjoint(m.Options, out.Options[0 : cap(out.Options)])
+//@   requires distinctObjects(m.Options, out.Options)
 //@   modifies buf[0 : len(buf)], out.Options, out.Options[0 : cap(out.Options)], out.Payload, out.Code, out.Token, out.Type, out.MessageID
 //@   ensures [encodes] e1 == nil && n == old(udpSize(m))
 //@   ensures [decodes] e2 == nil && n2 == n
